@@ -178,7 +178,7 @@ def run(tier):
         "model_checked": {"MCLayouts": {"distinct": mc.distinct, "generated": mc.generated}, "model_mutants_refuted": refuted},
         "replay": p.stats, "exhaustive": False,
     }
-    vlib.write_evidence(PROP, tier, "exploration", cov, time.time() - t0, len(v.violations), [
+    vlib.write_evidence(PROP, tier, "model_checking", cov, time.time() - t0, len(v.violations), [
         "coverage = the classes and fields present in spec/layout/Layouts.tla (transcribed from the cited RFC / IEEE clauses); "
         "classes listed under 'libtins_classes_not_in_Layouts' are NOT covered",
         "each header is serialised as the outermost layer (IP, IPv6, Dot1Q with an opaque RawPDU payload so that the user's "
